@@ -512,6 +512,16 @@ func checkGoroutineSends(c *Ctx, r *Report) {
 						}
 					}
 				}
+				if prm, ok := ch.(*ssa.Parameter); ok {
+					// goroutine body is a named function/method: the channel is the argument at the `go` site
+					for i, q := range body.Params {
+						if q == prm && i < len(g.Call.Args) {
+							if k := makeChanCap(g.Call.Args[i]); k >= 1 {
+								capOK = true
+							}
+						}
+					}
+				}
 				// at most one send per goroutine run
 				pc := newPathCounter(c, func(i ssa.Instruction) int {
 					if _, ok := i.(*ssa.Send); ok {
@@ -555,6 +565,10 @@ func makeChanCap(v ssa.Value) int64 {
 			}
 			return 0
 		case *ssa.UnOp:
+			v = x.X
+		case *ssa.ChangeType:
+			v = x.X // chan T → chan<- T at a call boundary
+		case *ssa.Convert:
 			v = x.X
 		default:
 			return 0
